@@ -444,7 +444,7 @@ Definition run_pool (ver : string) (ops : list pool_op) (s : pool_state) : pool_
 
 (* the template a claim is built from: the last edit, whatever the hash controller did in between *)
 Definition current_template (ops : list pool_op) (h0 : string) : string :=
-  fold_left (fun h o => match o with PEdit h' | PRecreate h' => h' | PHashCtl => h end) ops h0.
+  fold_left (fun h o => match o with PEdit h' | PRecreate h' => h' | PBuild | PHashCtl => h end) ops h0.
 
 Lemma run_pool_template ver ops : forall s, ps_template_hash (run_pool ver ops s) = current_template ops (ps_template_hash s).
 Proof.
